@@ -1,6 +1,7 @@
 package eng
 
 import (
+	"time"
 	"bytes"
 	"crypto/sha256"
 	"encoding/hex"
@@ -112,6 +113,9 @@ func (o *seqOracle) onLockWrite(inst int, old, new *ckInfo, applied bool, res st
 		return
 	}
 	in.roundCommitted = true
+	if in.stopped && in.runseqMode {
+		o.fail("C17", "checkpoint-after-stop", "instance %d committed a checkpoint after its sequencer had stopped", inst)
+	}
 	h := o.head()
 	if !new.OK || !new.RFCSig || new.Origin != w.name {
 		o.fail("C01", "lock-commit-unverifiable", "instance %d committed a checkpoint that does not verify under the log key/name: %s", inst, new.Token())
@@ -547,4 +551,37 @@ func (o *seqOracle) afterLoad(in *seqInst, err error, faultFree bool) {
 		o.audit("C03", "after-load", lc)
 	}
 	in.tree = lc
+}
+
+// afterStop: RunSequencer returned on instance in (fatal error, cancellation or the read-only date).
+func (o *seqOracle) afterStop(in *seqInst, err error) {
+	w := o.w
+	if err == nil {
+		o.fail("C17", "sequencer-stopped-without-error", "RunSequencer of instance %d returned nil", in.id)
+	}
+	// every pending submitter gets exactly one outcome promptly, and it is an error
+	for _, s := range w.subs {
+		if s.inst != in || s.gen != in.gen || s.got || s.dropped || s.source == "" {
+			continue
+		}
+		select {
+		case <-s.done:
+			w.report(s)
+			if s.err == nil {
+				// it may legitimately have been sequenced by the last round before the stop
+				continue
+			}
+		case <-time.After(5 * time.Second):
+			o.fail("C17", "stranded-waiter", "submission of entry %d to instance %d got no outcome after the sequencer stopped", s.entry.ID, in.id)
+			s.dropped = true
+		}
+	}
+	in.stopLockLen = len(o.lockHist)
+}
+
+// onSubmitAfterStop: a submission made after the sequencer stopped must fail.
+func (o *seqOracle) checkAfterStopSub(s *seqSub) {
+	if s.inst.stopped && s.inst.runseqMode && s.got && s.err == nil && s.afterStop {
+		o.fail("C17", "submission-after-stop-succeeded", "entry %d submitted to instance %d after its sequencer stopped was acknowledged", s.entry.ID, s.inst.id)
+	}
 }
